@@ -53,8 +53,9 @@ def coq_eval_sharded(ctx, name, parts, shard, workers=8, timeout=900):
     """Like coq_eval_parts, with each part's terms split into shards run by parallel coqc processes."""
     jobs = []
     for mod, header, terms, fns in parts:
-        for k in range(0, len(terms), shard):
-            jobs.append((mod, k, header, terms[k:k + shard], fns))
+        sh = shard.get(mod, 500) if isinstance(shard, dict) else shard
+        for k in range(0, len(terms), sh):
+            jobs.append((mod, k, header, terms[k:k + sh], fns))
     res = {mod: [[] for _ in fns] for mod, header, terms, fns in parts}
     with cf.ThreadPoolExecutor(max_workers=workers) as ex:
         futs = {ex.submit(coq_eval_parts, ctx, "%s_%s_%d" % (name, mod, k), [(mod, header, ch, fns)], timeout): (mod, k)
